@@ -69,6 +69,20 @@ def cases(draw):
             up = [x0[i] + w[i] for i in range(n)]
         case["lower"] = [sc.dec(v) for v in lo]
         case["upper"] = [sc.dec(v) for v in up]
+        mode = draw(st.sampled_from(["box", "box", "box", "mixed", "mixed", "as-projection"]))
+        if mode == "mixed" and n >= 2:
+            # per-coordinate mix of finite and absent (+-1e20) bounds
+            for i in range(n):
+                side = draw(st.sampled_from(["both", "both", "l", "u", "none"]))
+                if side in ("u", "none"):
+                    case["lower"][i] = -1e20
+                if side in ("l", "none"):
+                    case["upper"][i] = 1e20
+            case["tags"] = case["tags"] + ["bounds:mixed"]
+        elif mode == "as-projection":
+            case["box_as_proj"] = True        # the same box handed over as a user projection (projections=[P_box]) instead of bounds=
+            case["npt"] = n + 1
+            case["tags"] = case["tags"] + ["bounds:as-projection"]
         gap = min(case["upper"][i] - case["lower"][i] for i in range(n))
         rb_default = 0.1 * max(max(abs(v) for v in x0), 1.0)
         if gap < 2 * rb_default:
@@ -175,7 +189,12 @@ def run(case):
     if not certified:
         res.count("reference-not-certified")
         return res
-    o = sc.run_solve(case)
+    solve_case = case
+    if case.get("box_as_proj"):
+        solve_case = dict(case)
+        solve_case["proj"] = [{"kind": "box", "l": case["lower"], "u": case["upper"]}]
+        solve_case["lower"] = solve_case["upper"] = None
+    o = sc.run_solve(solve_case)
     lam = float(case["reg"]["lam"])
     conv = case["reg"]["conv"]
     want_h = (lam,) if conv in ("args", "argsh") else ()
